@@ -118,13 +118,15 @@ def one_run(args):
     obs = [int(round(e * 1e6)) for e in errs[1:]]
     tr = {"cfg": cname, "init": int(round(e0 * 1e6)), "tol": int(round(tol * 1e6)), "budget": int(math.ceil(budget / STRIDE)), "errs": obs,
           "truth": list(u), "deg": deg}
-    t.traces.append(tr)
-    # the same verdict computed here, to name the failing clause (TLC decides it again on the trace)
+    # the same verdict computed here, to name the failing clause; runs that pass are decided again by TLC on the trace
     bound = max(tr["init"], tr["tol"])
+    failed_here = len(t.fails)
     for k, e in enumerate(obs):
         if k + 1 >= tr["budget"] and e > tr["tol"]:
             t.fail("C05|%s|not-converged-within-budget|from-%d-deg" % (cname, deg), dict(case, at_sample=(k + 1) * STRIDE, err_rad=e * 1e-6, tol=tol, budget=budget))
             break
+    if len(t.fails) == failed_here:
+        t.traces.append(tr)
     t.resid(cname, obs[-1] * 1e-6)
     if deg == 175 and not t.samples:
         t.samples.append({"cfg": cname, "truth": u, "initial_error_deg": deg, "budget_samples": budget, "tol_rad": tol, "final_error_rad": obs[-1] * 1e-6})
